@@ -404,3 +404,30 @@ def sample_domain_point(rng, n, kind, X=None):
         if ok:
             return x, []
     return None, None
+
+
+def declared_domains(rng):
+    """domains built from USER constraints in which one coordinate is mentioned by no constraint (with and without auxiliary columns).  Each entry:
+    (description, zero-argument builder of the SigDomain, list of points of the DECLARED set).  The points come from the constraints as written,
+    not from the domain's own (A, b, K): a domain that silently describes another set is then seen by whoever uses it."""
+    import sageopt.coniclifts as cl
+    from sageopt.symbolic.signomials import SigDomain
+    out = []
+    pts_box = [np.array([a, b, c]) for a in (-1.0, -0.5, 0.3, 1.0) for b in (-1.0, 0.0, 0.9, 1.0) for c in (-2.0, 0.0, 0.9, 3.0)]
+    pts_disc = [np.array([a, b, c]) for a in (-0.7, 0.0, 0.6) for b in (-0.7, 0.0, 0.6) for c in (-2.0, 0.0, 0.9, 3.0) if a * a + b * b <= 1]
+
+    def box():
+        x = cl.Variable(shape=(3,), name='decl_box_x')
+        return SigDomain(3, coniclifts_cons=[x[:2] <= 1, x[:2] >= -1])
+
+    def box_last_first():
+        x = cl.Variable(shape=(3,), name='decl_box2_x')
+        return SigDomain(3, coniclifts_cons=[x[1:] <= 1, x[1:] >= -1])
+
+    def disc():
+        x = cl.Variable(shape=(3,), name='decl_disc_x')
+        return SigDomain(3, coniclifts_cons=[cl.vector2norm(x[:2]) <= 1])
+    out.append(('{-1 <= x0, x1 <= 1} in R^3 (x2 free, linear constraints only)', box, pts_box))
+    out.append(('{-1 <= x1, x2 <= 1} in R^3 (x0 free, linear constraints only)', box_last_first, [p_[[2, 0, 1]] for p_ in pts_box]))
+    out.append(('{|(x0, x1)| <= 1} in R^3 (x2 free, one auxiliary column)', disc, pts_disc))
+    return out
